@@ -12,7 +12,13 @@ C12_WIDE = ["pair_u128", "pair_i128"]
 PROPS = {
     "C11": {
         "verus": ["c11_rocksdb", "c11_fjall"],
-        "kani": [],
+        # the key scheme rests on the Postcard leaf codecs of the integer widths keys are made of (rule R10 assumes
+        # C12's contract): re-establish that part here, on the real code, every run
+        "kani": [
+            {"crate": "c12", "kind": "complete", "harnesses": ["rt_usize", "pair_usize", "rt_u64", "pair_u64", "rt_u32", "pair_u32", "rt_u8", "pair_u8", "rt_u16", "rt_i32", "rt_i64"],
+             "tiers": ("quick", "thorough"), "jobs": 12,
+             "bound": "none: full-domain symbolic input, loops unrolled to operand width with unwinding assertions"},
+        ],
         "witness": witness.c11,
         "assumptions": [
             "RocksDB / Fjall themselves are trusted: keys ordered by the bytewise comparator (lex_le/lex_lt of the spec), atomic batch write, iterate_upper_bound / prefix() semantics, visibility of committed data only, persistence across reopen",
@@ -25,7 +31,8 @@ PROPS = {
         ],
     },
     "C12": {
-        "verus": ["c12_generic"],
+        "expand": [("derive_fix", "derive_expanded.rs")],
+        "verus": ["c12_generic", "c12_derive"],
         "kani": [
             {"crate": "c12", "kind": "complete", "harnesses": C12_FAST, "tiers": ("quick", "thorough"), "jobs": 14,
              "bound": "none: full-domain symbolic input, loops unrolled to operand width with unwinding assertions"},
@@ -39,7 +46,9 @@ PROPS = {
             "Plugin and Session are opaque: no impl under contract looks inside them",
             "std collection / wrapper models listed in trusted_base (Cell, Duration, Vec::into_boxed_slice, Arc/Rc<[T]>::from(Vec), u8::from(bool), char::from_u32)",
             "decode contract is completeness on the encoder's image + exact consumption + image equality (w.bytes()==v.bytes()); value equality follows from injectivity of the image, proved for the primitive leaves (lemma_inj_*) and structural for the constructors",
-            "not under contract: String/str/Path (UTF-8 byte reasoning), VecDeque/LinkedList/BTreeMap/BTreeSet/HashMap/HashSet/DashMap/DashSet (iterator models), Cow, RefCell, atomics, [T;N]::decode (MaybeUninit), SmallVec, BitVec, Interned, derive output",
+            "not under contract: String/str/Path (UTF-8 byte reasoning), VecDeque/LinkedList/BTreeMap/BTreeSet/HashMap/HashSet/DashMap/DashSet (iterator models), Cow, RefCell, atomics, [T;N]::decode (MaybeUninit), SmallVec, BitVec, Interned",
+            "derive macros: verified on the fixture types of fixtures/derive_fix (named/tuple/unit/generic structs, enums with unit/tuple/struct variants, generic enum, skip on first/middle/last positions), expanded on every run by the real proc-macro crate; other shapes are covered only in so far as the macro treats them uniformly",
+            "rule R13: alpha-renaming of the derive's method type parameter (__E/__D -> E/D)",
         ],
     },
 }
